@@ -43,6 +43,7 @@ const (
 	ctxShadow // after an earlier match (on another union) whose arm binder has the scrutinee's name
 	ctxCallTarget // the target is a call of a generic function: its type is known only after inference
 	ctxBareLambda // the target is an un-annotated lambda parameter (typed only by the enclosing call)
+	ctxEncodedName // the union is called G_int and a generic union G<T> is instantiated at int next to it
 	numCtx
 )
 
@@ -184,6 +185,11 @@ func (c c09Case) source(pkg string) string {
 		b.WriteString("let f (u:U) =\n  let us = [u]\n  let rs = slice.Map (fun (v:U) ->\n" + c.matchLines("v", "                        ") + "                      ) us\n  slice.Head rs\n")
 	case ctxPipeArg:
 		b.WriteString("let h (k:int) (u:U) =\n" + c.matchLines("u", "  ") + "\nlet f (u:U) =\n  u |> h 3\n")
+	case ctxEncodedName:
+		// names that look like fc's own encodings of instantiated types: the case table of G<int>
+		// must not be taken for the one of the union called G_int (annotated just before it)
+		b.WriteString("type G<T> =\n| Gx of T\n| Gy\n\nlet pre (g:G<int>) =\n  match g with\n  | Gx _ -> 1\n  | Gy -> 2\n\n")
+		b.WriteString("let f2 (u:U) (g:G<int>) =\n" + c.matchLines("u", "  ") + "\nlet f (u:U) =\n  f2 u (Gy<int> ())\n")
 	case ctxBareLambda:
 		b.WriteString("let f (u:U) =\n  let us = [u]\n  let rs = slice.Map (fun v ->\n" + c.matchLines("v", "                        ") + "                      ) us\n  slice.Head rs\n")
 	case ctxCallTarget:
@@ -199,6 +205,9 @@ func (c c09Case) source(pkg string) string {
 		} else {
 			fmt.Fprintf(&b, "  frt.Printf1 \"%%d\\n\" (f %s)\n", c09Names[i])
 		}
+	}
+	if c.ctx == ctxEncodedName {
+		return c09WordU.ReplaceAllString(b.String(), "G_int")
 	}
 	return b.String()
 }
@@ -319,6 +328,8 @@ func c09Enumerate(tier string, rng *core.Rand) []c09Case {
 	return out
 }
 
+var c09WordU = regexp.MustCompile(`\bU\b`)
+
 var c09UntypedRe = regexp.MustCompile(`Cast fail|Can't distinguish String var pattern|Unknown case rule|Unknown match case`)
 
 var c09DiagRe = regexp.MustCompile(`match does not cover all cases\. Can't find case: (\w+)\.`)
@@ -335,7 +346,7 @@ func runC09(r *core.Run, tier string) {
 		r.Inconclusive("fc does not build: " + err.Error())
 		return
 	}
-	r.Rule("a case is one file holding one match on a union value, transpiled by its own fc process: every union of 1..4 cases (thorough: 5) x every payload/no-payload mix x every non-empty duplicate-free arm sequence x every arm form (bind / `_` / no payload) x with/without default, plus a seeded sample placed in 8 nesting contexts (an un-annotated lambda parameter as target, a target that is a call of a generic function, let right-hand side, if branch, inside another match arm, inside a lambda, in a piped partially applied function, after a match on another union whose arm binder carries the scrutinee's name); observed: exit status, diagnostic, presence of gen file; expected by set computation; a sample of accepted programs is compiled and run on one value per case; non-trivial = union with >= 2 cases; distinct by (union shape, arm sequence, forms, default, context)")
+	r.Rule("a case is one file holding one match on a union value, transpiled by its own fc process: every union of 1..4 cases (thorough: 5) x every payload/no-payload mix x every non-empty duplicate-free arm sequence x every arm form (bind / `_` / no payload) x with/without default, plus a seeded sample placed in 9 nesting contexts (a union called G_int next to the instantiation G<int> of a generic union, an un-annotated lambda parameter as target, a target that is a call of a generic function, let right-hand side, if branch, inside another match arm, inside a lambda, in a piped partially applied function, after a match on another union whose arm binder carries the scrutinee's name); observed: exit status, diagnostic, presence of gen file; expected by set computation; a sample of accepted programs is compiled and run on one value per case; non-trivial = union with >= 2 cases; distinct by (union shape, arm sequence, forms, default, context)")
 	r.Assume("the match target's union type is known when the match is parsed (annotated parameter or bound variable)", "arms never repeat a case (Go rejects duplicate type-switch cases)")
 	cases := c09Enumerate(tier, core.NewRand(r.SeedV, "c09"))
 	type obs struct {
